@@ -194,9 +194,15 @@ func verifHosts(l *roundRobinLoadBalancer) []*Host { return l.hosts.Load().([]*H
 //@   ensures others: forall(s, 0, MaxStreams, s != result ==> p.$has[s] == old(p.$has[s]) && p.$tag[s] == old(p.$tag[s]) && p.$val[s] == old(p.$val[s]))
 //@   modifies nothing, p.$has, p.$tag, p.$val
 
+// A backend stream id is released only for a response that has arrived on it ($arrived /
+// $arrivedStream are set by ClientConn.Receive once it has decoded a response frame): releasing it
+// earlier would let a late response be matched to whichever request is given the id next.
+//@ ghostvar $arrived bool
+//@ ghostvar $arrivedStream int16
 //@ func proxycore.pendingRequests.loadAndDelete [C01, C02]
 //@   trusted
 //@   requires p != nil
+//@   requires response-arrived: $arrived && stream == $arrivedStream
 //@   ensures found: 0 <= stream && stream < MaxStreams && old(p.$has[stream]) ==> tagof(result) == old(p.$tag[stream]) && valof(result) == old(p.$val[stream]) && result != nil && !p.$has[stream]
 //@   ensures missing: !(0 <= stream && stream < MaxStreams && old(p.$has[stream])) ==> result == nil
 //@   ensures others: forall(s, 0, MaxStreams, s != stream ==> p.$has[s] == old(p.$has[s]) && p.$tag[s] == old(p.$tag[s]) && p.$val[s] == old(p.$val[s]))
@@ -278,15 +284,15 @@ func verifHosts(l *roundRobinLoadBalancer) []*Host { return l.hosts.Load().([]*H
 //@   local $crOpCode primitive.OpCode = 0
 //@   local $crDelivered bool = false
 //@   local $crTarget int = 0
-//@   requires c != nil && c.pending != nil && c.codec != nil && c.conn != nil && c.closingMu != nil && nolocks()
-//@   after frame.RawCodec.DecodeRawFrame#1 set $crDecoded = (result1 == nil); $crStream = result0.Header.StreamId; $crOpCode = result0.Header.OpCode
+//@   requires c != nil && c.pending != nil && c.codec != nil && c.conn != nil && c.closingMu != nil && nolocks() && !$arrived
+//@   after frame.RawCodec.DecodeRawFrame#1 set $crDecoded = (result1 == nil); $crStream = result0.Header.StreamId; $crOpCode = result0.Header.OpCode; $arrived = (result1 == nil); $arrivedStream = result0.Header.StreamId
 //@   before proxycore.Request.OnResult#1 set $crDelivered = true; $crTarget = valof(recv)
 //@   ensures undecodable: !$crDecoded ==> result != nil && !$crDelivered
 //@   ensures unknown-stream: $crDecoded && $crOpCode != primitive.OpCodeEvent && !(0 <= $crStream && $crStream < MaxStreams && old(c.pending.$has)[$crStream]) ==> result != nil && !$crDelivered
 //@   ensures delivered-to-owner: $crDelivered ==> 0 <= $crStream && $crStream < MaxStreams && old(c.pending.$has)[$crStream] && $crTarget == old(c.pending.$val)[$crStream]
 //@   ensures entry-removed: $crDecoded && $crOpCode != primitive.OpCodeEvent && 0 <= $crStream && $crStream < MaxStreams && old(c.pending.$has)[$crStream] ==> result == nil
 //@   ensures events-not-delivered: $crDecoded && $crOpCode == primitive.OpCodeEvent ==> !$crDelivered
-//@   modifies *, c.pending.$has, c.pending.$tag, c.pending.$val
+//@   modifies *, c.pending.$has, c.pending.$tag, c.pending.$val, $arrived, $arrivedStream
 
 
 // C08: re-preparation. maybeCachePrepared remembers the PREPARE frame of a successful PREPARE;
